@@ -26,6 +26,8 @@ pub fn outputs<T: Scalar, const D: usize>(r: &TropicalSampleResult<T, D>) -> Vec
 
 struct HarnessRng<T> {
     k: u64,
+    /// fixed words (constants for both scalars) instead of the tagged / model-driven ones
+    concrete: bool,
     _p: std::marker::PhantomData<T>,
 }
 impl<T: Scalar> rand::RngCore for HarnessRng<T> {
@@ -33,7 +35,7 @@ impl<T: Scalar> rand::RngCore for HarnessRng<T> {
         (self.next_u64() >> 32) as u32
     }
     fn next_u64(&mut self) -> u64 {
-        let w = T::rng_word(self.k);
+        let w = if self.concrete { (self.k.wrapping_mul(0x9e3779b97f4a7c15) ^ 0x5bd1e995_1234_5678) | (1 << 62) } else { T::rng_word(self.k) };
         self.k += 1;
         w
     }
@@ -72,6 +74,26 @@ fn go<T: Scalar, const D: usize>(h: &C17, out: &mut Outcome<T>) {
         sampler.generate_sample_from_x_space_point(x, edge_data(), st, &obs).map_err(|e| format!("{:?}", e))
     };
     let plain = settings(false, false, None);
+    // history across samplers: another graph with the same edge count and D but another loop number is
+    // built, asked for its dimension and sampled (also through the rng entry point) before anything else
+    if let Some(pe) = crate::catalogue::partner(&h.entry, D).filter(|_| std::env::var("SYMX_NO_PARTNER").is_err()) {
+        let pg = pe.ograph();
+        let pr = routings(&pg, 1).remove(0);
+        let ps = build::<D>(&pe, &pr.sig);
+        let pdim = ps.get_dimension();
+        let pkin = rat_kin::<T>(&pg, D);
+        let psh = crate::oracle::shifts(&pg, pr.tree, &pr.sig, &pkin.pin, &pkin.offsets);
+        let ped = || -> Vec<(Option<T>, Vector<T, D>)> { (0..pg.ne()).map(|e| (pkin.masses[e], Vector::from_array(std::array::from_fn(|d| psh[e][d])))).collect() };
+        // fixed rational point: no new branch decisions
+        let px: Vec<T> = (0..pdim).map(|k| T::rat(31 + (k * 7919 % 89) as i64, 181)).collect();
+        let obs = Obs::<T> { events: RefCell::new(vec![]) };
+        let _ = ps.generate_sample_from_x_space_point(&px, ped(), &plain, &obs);
+        let mut prng = HarnessRng::<T> { k: 0, concrete: true, _p: std::marker::PhantomData };
+        let _ = ps.generate_sample_from_rng(ped(), &plain, &mut prng, &obs);
+        out.prove("partner sampler: rng draws = its get_dimension()", T::rat(prng.k as i64, 1), Rel::Eq, T::rat(pdim as i64, 1));
+        let dl = D * pg.num_loops();
+        out.prove("partner sampler: get_dimension = 2E-1+DL+(DL mod 2)", T::rat(pdim as i64, 1), Rel::Eq, T::rat((2 * pg.ne() - 1 + dl + dl % 2) as i64, 1));
+    }
     let first = call(&x, &plain);
     // history: another point in between, then the same point again, twice
     let _other = call(&y, &plain);
@@ -95,10 +117,14 @@ fn go<T: Scalar, const D: usize>(h: &C17, out: &mut Outcome<T>) {
     }
     // stability test on with a generous tolerance: same numbers when it passes
     // generate_sample_from_rng = generate_sample_from_x_space_point on the drawn numbers
-    let mut rng = HarnessRng::<T> { k: 0, _p: std::marker::PhantomData };
+    let mut rng = HarnessRng::<T> { k: 0, concrete: false, _p: std::marker::PhantomData };
     let obs = Obs::<T> { events: RefCell::new(vec![]) };
     let via_rng = sampler.generate_sample_from_rng(edge_data(), &plain, &mut rng, &obs).map_err(|e| format!("{:?}", e));
     out.prove("rng draws = get_dimension()", T::rat(rng.k as i64, 1), Rel::Eq, T::rat(dim as i64, 1));
+    {
+        let dl = D * g.num_loops();
+        out.prove("get_dimension = 2E-1+DL+(DL mod 2)", T::rat(dim as i64, 1), Rel::Eq, T::rat((2 * g.ne() - 1 + dl + dl % 2) as i64, 1));
+    }
     cmp(out, "from_rng = from_x_space_point", &first, &via_rng);
     if let Ok(a) = &first {
         out.twin_opaque("twin: u(x) = u(y)", a.u, Rel::Eq, match &_other { Ok(b) => b.u, Err(_) => zero });
@@ -141,8 +167,8 @@ pub fn run(cfg: &RunCfg) -> PartResult {
     let mut list = entries(cfg.tier, false);
     list.extend(entries(cfg.tier, true));
     for entry in list {
-        if entry.ne() > 5 {
-            continue; // two independent points square the number of sector paths
+        if entry.ne() > 5 || (cfg.tier == Tier::Quick && entry.ograph().num_loops() >= 3) {
+            continue; // without abstraction of the Feynman parameters the L >= 3 determinant branches are slow
         }
         let d = entry.dims[(cfg.seed as usize) % entry.dims.len()];
         covered.push(json!({"graph": entry.name, "D": d}));
